@@ -390,6 +390,76 @@ func buildPlans(tier string) []*plan {
 		plans = append(plans, &plan{Name: "PIR-invalid-fork", Real: true, Bases: seqs(nil, 0, 0), Makers: []int{mkSession, mkBegin}, ForksA: seqs(inv, 1, 1), ForksB: fb, Fins: [][2]int{{fFind, fFind}, {fHandle, fCount}}, Scheds: sc, Modes: both, PerBase: true})
 	}
 
+	// PM: one handle used with two models whose fields of the same Go name map to different columns: Select/Omit by
+	// Go field name in the base, forks that choose the model (Model(&Pet{}) / Model(&User{}) / Table / the
+	// destination of the finisher).
+	// PQ: a call kind already present in the base is repeated by a fork with another argument, for every piece of
+	// statement state held through a pointer or a map (TableExpr, Model, clause values, Selects/Omits, Preloads,
+	// Joins, Settings, Distinct/Unscoped flags); the other fork does not touch that kind. Schedules include
+	// "build A, build B, exec A" with B abandoned.
+	{
+		lab := func(ls ...string) []int {
+			var out []int
+			for _, l := range ls {
+				i, ok := opByLabel[l]
+				if !ok {
+					panic("unknown chain call " + l)
+				}
+				out = append(out, i)
+			}
+			return out
+		}
+		abandonB := []event{{Kind: evBuildA}, {Kind: evBuildB}, {Kind: evExecA}}
+		sc := append(baseScheds(), abandonB)
+		mm := lab(`Select("Name")`, `Select("Name","Age")`, `Select([]string{"Age"})`, `Omit("Age")`, `Omit("Name","CompanyID")`)
+		mbases := union(seqs(mm, 1, 1), [][]int{lab(`Select("Name")`, `Omit("Age")`), lab(`Select([]string{"Age"})`, `Select("Name")`), lab(`Distinct()`, `Select("Name")`), lab(`Omit("Age")`, `Limit(5)`)})
+		if thorough {
+			mbases = seqs(mm, 1, 2)
+		}
+		mforks := [][]int{lab(`Where("name = ?","w")`), lab(`Model(&Pet{})`), lab(`Model(&User{})`), lab(`Table("pets")`), lab(`Limit(5)`)}
+		mfins := dedupPairs(append(pairs(fFind, fFindPets, fHandle), [2]int{fCountPets, fFind}, [2]int{fFind, fCreatePet}, [2]int{fUpdate, fFindPets}, [2]int{fFindPets, fCreate}))
+		plans = append(plans, &plan{Name: "PM-two-models", Bases: mbases, Makers: []int{mkSession}, ForksA: mforks, ForksB: mforks, Fins: mfins, Scheds: sc, Modes: both, PerBase: true})
+		plans = append(plans, &plan{Name: "PMm-two-models", Bases: mbases, Makers: []int{mkContext, mkDebug}, ForksA: mforks[1:4], ForksB: mforks[:3], Fins: mfins[:4], Scheds: sc[2:], Modes: []bool{true}, PerBase: true})
+		rfins := dedupPairs(append(pairs(fFind, fFindPets), [2]int{fHandle, fFindPets}, [2]int{fFindPets, fHandle}, [2]int{fCountPets, fFind}))
+		plans = append(plans, &plan{Name: "PMR-two-models", Real: true, Bases: mbases, Makers: []int{mkSession, mkBegin}, ForksA: mforks, ForksB: mforks[:3], Fins: rfins, Scheds: sc[1:], Modes: []bool{false}, PerBase: true})
+
+		other := lab(`Where("name = ?","w")`)
+		rep := map[string][]int{
+			"TABLE":      lab(`Table("users")`, `Table("pets")`, `Table("users AS u")`, `Table("(SELECT * FROM users WHERE age > ?) AS u",18)`, `Table("main.users")`),
+			"MODEL":      lab(`Model(&User{})`, `Model(&Pet{})`, `Model(&User{ID:4})`),
+			"LOCKING":    lab(`Clauses(Locking{UPDATE})`, `Clauses(Locking{SHARE NOWAIT})`),
+			"ONCONFLICT": lab(`Clauses(OnConflict{DoNothing})`, `Clauses(OnConflict{id -> name})`, `Clauses(OnConflict{UpdateAll})`),
+			"LIMIT":      lab(`Limit(5)`, `Limit(2)`, `Offset(3)`, `Clauses(Limit{Limit:&4,Offset:1})`),
+			"SELECT":     lab(`Select([]string{"name"})`, `Select("Name")`, `Distinct()`, `Distinct("name")`),
+			"OMIT":       lab(`Omit("age")`, `Omit("Age")`, `Omit("name","company_id")`),
+			"UNSCOPED":   lab(`Unscoped()`, `Where("name = ?","w")`),
+			"PRELOAD":    lab(`Preload("Company")`, `Preload("Company","name = ?","pc")`),
+			"JOINS":      lab(`Joins("Company")`, `InnerJoins("Company")`, `Joins("Company",db.Or("name = ?","pc").Where("id > ?",0))`),
+			"SETTINGS":   lab(`Set("c06:k","v1")`, `Set("c06:k","v2")`, `InstanceSet("c06:k","i1")`),
+			"RETURNING":  lab(`Clauses(Returning{name})`, `Clauses(Returning{})`, `Clauses(Returning{id,company_id})`),
+		}
+		var names []string
+		for k := range rep {
+			names = append(names, k)
+		}
+		sort.Strings(names)
+		qfins := [][2]int{{fFind, fFind}, {fHandle, fUpdate}, {fCreate, fHandle}}
+		for _, k := range names {
+			v := rep[k]
+			bases := seqs(v, 1, 1)
+			if len(v) <= 3 || thorough {
+				bases = seqs(v, 1, 2)
+			}
+			forks := union(seqs(v, 1, 1), [][]int{other})
+			plans = append(plans, &plan{Name: "PQ-repeat-" + k, Bases: bases, Makers: []int{mkSession}, ForksA: forks, ForksB: forks, Fins: qfins, Scheds: sc, Modes: both, PerBase: true})
+			plans = append(plans, &plan{Name: "PQm-repeat-" + k, Bases: seqs(v, 1, 1), Makers: []int{mkContext, mkDebug}, ForksA: forks, ForksB: forks, Fins: qfins[1:2], Scheds: sc[3:], Modes: []bool{true}, PerBase: true})
+			switch k {
+			case "TABLE", "MODEL", "LIMIT", "SELECT", "PRELOAD", "JOINS", "OMIT":
+				plans = append(plans, &plan{Name: "PQR-repeat-" + k, Real: true, Bases: seqs(v, 1, 1), Makers: []int{mkSession, mkBegin}, ForksA: forks, ForksB: forks, Fins: [][2]int{{fFind, fFind}, {fHandle, fCount}}, Scheds: sc[2:], Modes: []bool{false}, PerBase: true})
+			}
+		}
+	}
+
 	// PHR2: on SQLite, every finisher executed on a handle whose base mixes two kinds (Count with Group/Distinct/
 	// Select, FindInBatches with Limit/Offset/Order, ...)
 	{
@@ -448,6 +518,9 @@ func buildPlans(tier string) []*plan {
 			}
 			for r := 0; r < rounds; r++ {
 				a1, a2 := opsOf(k1, tThor), opsOf(k2, tThor)
+				if len(a1) == 0 || len(a2) == 0 {
+					continue
+				}
 				if r == 1 && len(a1) == 1 && len(a2) == 1 {
 					continue
 				}
@@ -858,7 +931,7 @@ func main() {
 		"traces_validated_against_impl":     total.transitions,
 		"evaluations":                       total.histories,
 		"distinct_nontrivial":               setNontrivial.len(),
-		"rule":                              "histories = base chain (<=3 calls) -> handle maker (Session | WithContext | Debug | Begin on SQLite | the gorm.Open handle itself) -> two forks (<=2 calls each) x finisher pair (Find First Take Last Count Pluck Scan FirstOrInit Update Delete Create Save | fork turned into a handle and probed | on SQLite: Find Count First, Count-then-Find on one chain) x schedule {aBuild bBuild aExec bExec | aBuild bBuild bExec aExec | aBuild aExec bBuild bExec} (forks range over ordered pairs, so the mirrored schedules are included) x probe mode {after every transition | only at the end} [+ one execution of the handle itself at a gap]. Blocks: P0 forks from the Open handle; P1 base and both forks from the variants of one clause kind (P1m other handle makers, P1h handle executed in between); PH/PHm/PHR/PH2 every finisher of the alphabet (Find First Take Last Count Pluck Scan FirstOrInit FindInBatches FirstOrCreate CreateInBatches Association.Find/Count Update Delete Create Save; on SQLite the read-only ones + Rows Row Transaction(fn)) executed directly ON a live reusable handle — the base handle at every gap of the schedule, the handle made from fork A once it exists — with the handle's base chain (1-2 calls, thorough 1-3) ranging over every clause kind and, in PH2, over every 2-call chain of the quick alphabet, followed by forks and probes of the same handle (PHR2: on SQLite with 2-kind bases); PI/PIR chain calls with an argument they cannot translate (typed nil pointer, unsupported type, unknown relation, failing scope/expression — the call records an error) built on a fork that is executed, turned into a handle or abandoned, or as the base; a panic inside gorm is an observation compared with the isolated replay; P2 one call each from any kinds; P3 two kinds mixed; P4 (thorough) every 3-call base over the quick alphabet with one-call forks from the kinds in the base; PR the same on SQLite with real queries. distinct_nontrivial = distinct (base, maker, fork, finisher) specs with a non-empty fork whose output was compared with its isolated replay on a fresh gorm.Open; states = distinct handle-tree specs (base+maker; per fork: not built / built / finished / handle + its calls + finisher); transitions = handle made, fork built, fork executed, handle executed — each executed on the implementation and followed by the oracle",
+		"rule":                              "histories = base chain (<=3 calls) -> handle maker (Session | WithContext | Debug | Begin on SQLite | the gorm.Open handle itself) -> two forks (<=2 calls each) x finisher pair (Find First Take Last Count Pluck Scan FirstOrInit Update Delete Create Save | fork turned into a handle and probed | on SQLite: Find Count First, Count-then-Find on one chain) x schedule {aBuild bBuild aExec bExec | aBuild bBuild bExec aExec | aBuild aExec bBuild bExec} (forks range over ordered pairs, so the mirrored schedules are included) x probe mode {after every transition | only at the end} [+ one execution of the handle itself at a gap]. Blocks: P0 forks from the Open handle; P1 base and both forks from the variants of one clause kind (P1m other handle makers, P1h handle executed in between); PH/PHm/PHR/PH2 every finisher of the alphabet (Find First Take Last Count Pluck Scan FirstOrInit FindInBatches FirstOrCreate CreateInBatches Association.Find/Count Update Delete Create Save; on SQLite the read-only ones + Rows Row Transaction(fn)) executed directly ON a live reusable handle — the base handle at every gap of the schedule, the handle made from fork A once it exists — with the handle's base chain (1-2 calls, thorough 1-3) ranging over every clause kind and, in PH2, over every 2-call chain of the quick alphabet, followed by forks and probes of the same handle (PHR2: on SQLite with 2-kind bases); PI/PIR chain calls with an argument they cannot translate (typed nil pointer, unsupported type, unknown relation, failing scope/expression — the call records an error) built on a fork that is executed, turned into a handle or abandoned, or as the base; a panic inside gorm is an observation compared with the isolated replay; PM/PMm/PMR one handle used with two models (User, Pet) whose fields of the same Go name map to different columns — Select/Omit by Go field name in the base, forks choosing the model by Model(..)/Table(..)/the finisher's destination; PQ/PQm/PQR a call kind present in the base repeated by a fork with another argument (Table, Model, Locking, OnConflict, Limit, Select/Distinct, Omit, Unscoped, Preload, Joins, Returning, Set/InstanceSet — the value of the setting is part of every observation) while the other fork does not touch it, schedules incl. build A, build B, exec A with B abandoned; P2 one call each from any kinds; P3 two kinds mixed; P4 (thorough) every 3-call base over the quick alphabet with one-call forks from the kinds in the base; PR the same on SQLite with real queries. distinct_nontrivial = distinct (base, maker, fork, finisher) specs with a non-empty fork whose output was compared with its isolated replay on a fresh gorm.Open; states = distinct handle-tree specs (base+maker; per fork: not built / built / finished / handle + its calls + finisher); transitions = handle made, fork built, fork executed, handle executed — each executed on the implementation and followed by the oracle",
 		"samples":                           samples.List(),
 		"exhaustive":                        exhaustive,
 		"violating_histories_by_input_tags": classCounts,
